@@ -343,7 +343,7 @@ def project_coverage(prop, tier, stats, nruns, other, samples, pstats, wall, kno
         "runs_under_python_O": pstats.get("optimized_runs", 0),
         "tasks_skipped_by_budget": pstats.get("skipped"),
         "real_components": ["doctrans (all modules)", "black", "ast", "argparse", "meta.asttools.cmp_ast", "tmpfs files",
-                            "C10 only: freshly started interpreters (own PYTHONHASHSEED) for every sync of 5% of the histories, see reach_probes"],
+                            "freshly started interpreters (own PYTHONHASHSEED) for every sync of 5% (C10) or 2% (other properties) of the histories, see reach_probes"],
         "simulated_components": ["OS process boundary", "file objects (proxy)", "Ctrl-C / MemoryError (raised from the step seam)", "SIGKILL (I/O freeze + buffer loss)",
                                  "ENOSPC/EIO/EACCES (raised by the seam)", "the user/editor (scripted environment actions)"],
         "exhaustive": False,
@@ -540,6 +540,7 @@ def enum_base(seed):
         if op["op"] in ("sync", "sync_properties", "gen"):
             break
     sc["ops"] = ops
+    sc["knobs"].pop("processes", None)  # (one interpreter start per enumerated fault would cost minutes)
     sc["twin_check"] = []
     if not ops or ops[-1]["op"] not in ("sync", "sync_properties", "gen"):
         return None  # this history has no doctrans operation to enumerate faults over
